@@ -258,6 +258,14 @@ TEMPLATES = {
     'sfc_transition': _T('FUNCTION_BLOCK fb\nVAR\n  done : BOOL;\nEND_VAR\nINITIAL_STEP Start:\nEND_STEP\nSTEP Work:\nEND_STEP\n', ('opt', 'STEP Other:\nEND_STEP\n'), 'TRANSITION ', ('opt', 'tr1 '), ('opt', '(PRIORITY := 2) '), 'FROM ', ('alt', ['Start', '(Start, Work)']),
                          ' TO ', ('alt', ['Work', '(Work, Start)']), '\n  := ', ('alt', ['TRUE', 'done', 'NOT done']), ';\nEND_TRANSITION\nEND_FUNCTION_BLOCK\n'),
 }
+_OPS = ['+', '-', '*', '/', 'MOD', '**', 'AND', '&', 'OR', 'XOR', '=', '<>', '<', '>', '<=', '>=']
+TEMPLATES['binary_nesting_right'] = _FB([], ['  x := a ', ('alt', _OPS), ' (b ', ('alt', _OPS), ' c);\n'])
+TEMPLATES['binary_nesting_left'] = _FB([], ['  x := (a ', ('alt', _OPS), ' b) ', ('alt', _OPS), ' c;\n'])
+_OPS_Q = ['+', '-', '*', '**', 'AND', 'OR', 'XOR', '=', '<']
+TEMPLATES['binary_nesting_right_q'] = _FB([], ['  x := a ', ('alt', _OPS_Q), ' (b ', ('alt', _OPS_Q), ' c);\n'])
+TEMPLATES['binary_nesting_left_q'] = _FB([], ['  x := (a ', ('alt', _OPS_Q), ' b) ', ('alt', _OPS_Q), ' c;\n'])
+K3_THOROUGH_ONLY = {'binary_nesting_right', 'binary_nesting_left'}; K3_QUICK_ONLY = {'binary_nesting_right_q', 'binary_nesting_left_q'}
+TEMPLATES['unary_nesting'] = _FB([], ['  x := ', ('alt', ['-(a + b)', 'NOT (a AND b)', '-(-a)', 'NOT (NOT a)', '-a * b', '(-a) * b', '-(a * b)', 'NOT a AND b', 'NOT (a AND b) OR c', '-(a ** b)', '(-a) ** b', 'a - (-b)', 'a + (b)', '((a))']), ';\n'])
 # segments of a body template may name declarations that need context; give every function block body the same context declarations
 _CONTEXT = 'TYPE\n  c : (red, green) := red;\n  st : STRUCT\n    a : INT;\n  END_STRUCT;\nEND_TYPE\nFUNCTION_BLOCK callee\nVAR_INPUT\n  in1 : BOOL;\n  in2 : INT;\nEND_VAR\nVAR_OUTPUT\n  out1 : BOOL;\nEND_VAR\nEND_FUNCTION_BLOCK\n'
 
@@ -363,7 +371,7 @@ def _k3_job(job):
 def k3(ctx, kr):
     global _CTX
     _CTX = ctx
-    names = list(TEMPLATES)
+    names = [n for n in TEMPLATES if n not in (K3_THOROUGH_ONLY if ctx.tier == 'quick' else K3_QUICK_ONLY)]
     import itertools
     nshapes = {n: len(list(itertools.product(*[range(d) for d in _shapes(TEMPLATES[n])]))) for n in names}
     kr.bounds = ('%d source templates with optional segments and alternatives (%d shapes in total; the shape selectors are symbolic, everything else concrete): parse_program -> write_to_string -> parse_program -> Library::eq, all run on the MIR of the tree; '
